@@ -825,6 +825,32 @@ func c12UnderUse(c *mon.Ctx, g lint.Registry, names []string, inReg map[string]b
 		_, _ = g.Filter(randFilter(rng, k%3 == 0))
 	}
 	compare("after listing, default configuration and 200 Filter calls")
+	// profiles are another reader of the registry: register a few (every kind of lint in them, a repeated name, a name
+	// that is not a lint), look them up, list them - the registry must be what it was
+	names = g.Names()
+	if len(names) > 12 {
+		var mixed []string
+		for _, k := range []corpus.Kind{corpus.OCSP, corpus.CRL, corpus.Cert} {
+			for _, li := range Inv {
+				if li.Kind == k {
+					mixed = append(mixed, li.Name)
+					break
+				}
+			}
+		}
+		lint.RegisterProfile(lint.Profile{Name: "verif_c12_mixed", Description: "verif", Source: lint.Community, LintNames: mixed})
+		lint.RegisterProfile(lint.Profile{Name: "verif_c12_tail", Description: "verif", Source: lint.Community, LintNames: append([]string{}, names[len(names)-6:]...)})
+		lint.RegisterProfile(lint.Profile{Name: "verif_c12_repeats", Description: "verif", Source: lint.Community, LintNames: []string{names[3], names[3], " " + names[5], "e_verif_no_such_lint"}})
+		lint.RegisterProfile(lint.Profile{Name: "verif_c12_empty", Description: "verif", Source: lint.Community})
+		for k := 0; k < 3; k++ {
+			for _, pn := range []string{"verif_c12_mixed", "verif_c12_tail", "verif_c12_repeats", "verif_c12_empty", "verif_c12_unknown"} {
+				_, _ = lint.GetProfile(pn)
+			}
+			_ = lint.AllProfiles()
+		}
+		compare("after registering four profiles and looking them up (GetProfile, AllProfiles)")
+		c.R.Count("profile_lookups", 1)
+	}
 	c12Invariants(c, g, g.Names(), inReg, "default build after use")
 	c.R.Count("registry_uses", int64(uses))
 	c.R.Note("registry_use_instants", len(when))
